@@ -386,6 +386,9 @@ def run(ctx):
         rng = ctx.rng("doc", i)
         rng.seed("C11|%s|%d" % (ctx.seed, i))
         spec = gen.gen_doc(rng, max_nodes=rng.choice([3, 8, 15]), hostile=0.2)
+        for _, n_ in model.walk(spec):
+            if n_["k"] in ("sec", "prop") and rng.random() < 0.06:
+                n_["name"] = n_["id"]          # created without a name: the id serves as name (and stays the name of a copy)
         case = {"spec": enc(spec), "i": i, "detached": i % 50 == 0}
         run_case(case, ctx)
         if i % 10 == 0:
